@@ -212,6 +212,11 @@ func (s *supervisor) processDied(r *processorRequestDied) {
 				continue
 			}
 			sibling := n.parent.children[name]
+			// A sibling that already signaled Done is left alone: it is not going to be restarted, so
+			// canceling its context would only take down its children for good.
+			if sibling.state == nodeStateDone {
+				continue
+			}
 			// TODO(q3k): does this need to run in a goroutine, ie. can a context cancel block?
 			sibling.ctxC()
 		}
@@ -348,8 +353,11 @@ func (s *supervisor) processGC() {
 		cur := queue[0]
 		queue = queue[1:]
 
-		// If this node is DEAD or CANCELED it should be restarted.
-		if cur.state == nodeStateDead || cur.state == nodeStateCanceled {
+		// If this node is DEAD or CANCELED it should be restarted. The same goes for a node that signaled Done
+		// only after its context had been canceled (eg. because a group sibling died): nothing below it could
+		// ever be restarted otherwise.
+		if cur.state == nodeStateDead || cur.state == nodeStateCanceled ||
+			(cur.state == nodeStateDone && cur.ctx.Err() != nil) {
 			want[cur.dn()] = true
 		}
 
